@@ -178,18 +178,23 @@ type slowReaderResult struct {
 }
 
 func slowReaderRun(bed *px.Bed, n, padBytes int, stall time.Duration, register bool, duringStall func()) (*slowReaderResult, error) {
+	return slowReaderRunAt(bed.Addr, bed.Cluster, n, padBytes, stall, register, duringStall)
+}
+
+// slowReaderRunAt: the same against any proxy address with its fake backend (the real binary of C17).
+func slowReaderRunAt(addr string, cluster *fakecass.Cluster, n, padBytes int, stall time.Duration, register bool, duringStall func()) (*slowReaderResult, error) {
 	pad := make([]byte, padBytes)
 	for i := range pad {
 		pad[i] = 'p'
 	}
 	cols := []*message.ColumnMetadata{{Keyspace: "ks1", Table: "t", Name: "k", Type: datatype.Varchar}, {Keyspace: "ks1", Table: "t", Name: "pad", Type: datatype.Blob}}
-	bed.Cluster.SetScript(func(a *fakecass.Arrival) fakecass.Outcome {
+	cluster.SetScript(func(a *fakecass.Arrival) fakecass.Outcome {
 		if !strings.HasPrefix(a.Token, "T5107") {
 			return fakecass.Outcome{}
 		}
 		return fakecass.Outcome{Name: "Rows", Msg: &message.RowsResult{Metadata: &message.RowsMetadata{ColumnCount: 2, Columns: cols}, Data: []message.Row{{[]byte(a.Token), pad}}}}
 	})
-	nc, err := net.DialTimeout("tcp", bed.Addr, 5*time.Second)
+	nc, err := net.DialTimeout("tcp", addr, 5*time.Second)
 	if err != nil {
 		return nil, err
 	}
